@@ -47,7 +47,8 @@ class C06(Property):
     pid = "C06"
     quick_n = 3000
     thorough_n = 120000
-    partial = ["C06_message_text (the stderr text carries the conversion/guard message) is decided by the oracle only"]
+    partial = ["that the stderr text carries the conversion/guard message is a theorem about Model/Message.v (tied byte for byte for "
+               "top-level failures on UTF-8 lines); for failures handed out of a subcommand it is decided by the oracle"]
 
     def generate(self, rng, tier, n):
         cases = []
